@@ -155,3 +155,19 @@ def _c01_kani(pid, v, tier):
 
 TEMPLATES["C01"] = c01_kani
 TEMPLATES["internal"] = c01_kani
+
+
+def c06_roundtrip(pid, v, tier):
+    """The bounded run executed the real release binary and library on this statement: the failing input is in hand."""
+    ex = v.get("extra") or {}
+    if ex.get("failing_input") is None:
+        return None
+    return {"found": True,
+            "counterexample": {"statement": ex["failing_input"], "style": "structured" if ex.get("structured") else "unstructured", "what": ex.get("what")},
+            "native_replay": {"how": "one file `fn f() {\\n    <statement>\\n}`, Breadlog.yaml with use_cache: false, structured: %s, log_macros [log::info]; "
+                                     "run `breadlog -c Breadlog.yaml`, then `--check`, then the edit again" % ("true" if ex.get("structured") else "false"),
+                              "observed": ex.get("what")},
+            "replay_cmd": None}
+
+
+TEMPLATES["C06.roundtrip"] = c06_roundtrip
